@@ -10,37 +10,88 @@ _HDR = ('From Coq Require Import List ZArith NArith Floats.PrimFloat. Import Lis
         'From ByC Require Import Base.Result Harness.Compare Model.Plots.\nOpen Scope float_scope.')
 COQ_STREAMS = {
     'markers': (_HDR, 'bad_markers', ('Z * nat * Z * list Z', 'list Z'), 300),
-    'summary': (_HDR, 'bad_summary', ('summ_in', 'summ_out'), 40),
+    'summary': (_HDR.replace('NArith Floats', 'NArith String Floats'), 'bad_summary', ('summ_in', 'summ_out'), 40),
     'offset': (_HDR, 'bad_offset', ('float * list float', 'list Z'), 50),
 }
 RULE = ('cycle tables of both centrings from generated signals; x-limits None or on the sample grid (values taken from the '
         'plotted time axis): stratified so that every plot function x centring x {no limits, random window, window starting '
         'where fs*t does not reproduce the sample index} occurs at least twice and, for plot_burst_detect_summary / Bycycle.plot, '
         'every (plot_only_result, interp) pair with each centring; further windows with no complete cycle, ending exactly on a '
-        'cycle boundary, starting at t = 0, ending on the last sample; plot_cyclepoints_array / '
+        'cycle boundary, starting at t = 0, ending on the last sample, starting exactly on the first sample of a cycle '
+        '(preferably one with fs * (k / fs) > k); threshold dictionaries with seeded values (pairwise different), keys in '
+        'seeded insertion order, min_n_cycles first / in the middle / last / absent, sometimes a subset of the four '
+        'parameters, through Bycycle(...) also written with the shorthand names; every threshold line is compared with '
+        'the value given for the parameter whose per-cycle values the panel shows; plot_cyclepoints_array / '
         'plot_cyclepoints_df with the four kind switches. Line2D data and masked arrays are read back from the Axes: marker x '
         'against sample / fs and against the plotted trace, marker y against the plotted value, highlighted samples, parameter '
         'panel points (interp and step branch) and threshold lines. The window offset on its own: every start sample k < 400 '
         '(5000 thorough, every 7th) of 9 sampling rates through plot_cyclepoints_array, a seeded sample of them (half '
         'of it among the k with fs * (k / fs) != k) through plot_burst_detect_summary and plot_burst_detect_param (both '
-        'branches) with a synthetic 3-row table. non-trivial = a '
+        'branches) with a synthetic 3-row table whose first (labelled) cycle starts exactly on the first sample of the view and '
+        'whose last cycle ends exactly on its last sample. non-trivial = a '
         'window with x-limits that contains at least one marker / one labelled cycle, or an offset sweep')
 ASSUMPTIONS = ['matplotlib rendering itself is trusted; only the data handed to the artists is checked (partial)',
-               'PENDING-DEFECT 1 (.work/wp/WP8_defect_1.md): windows that start exactly on the first sample of a cycle while '
-               'fs * (k / fs) > k are not generated (limit_df drops that cycle although it lies entirely inside the view)']
+               'which parameter a panel shows is read off its drawn per-cycle values (not off the order of the panels or their '
+               'labels); where the values of two parameters coincide in the view, any assignment under which every threshold '
+               'line is at the value given for its parameter is accepted. The model comparison additionally pins the order '
+               'of the panels to the order of the keys in the dictionary handed to the plot']
 TRUST = ['sample index of a drawn x value = round(x * fs), accepted only when |x - index / fs| < 1e-9 / fs']
 
-THR = {'amp_fraction_threshold': 0.1, 'amp_consistency_threshold': 0.4, 'period_consistency_threshold': 0.4,
-       'monotonicity_threshold': 0.6, 'min_n_cycles': 2}
-PKEYS = [k for k in THR if k != 'min_n_cycles']
+PKEYS = ['amp_fraction_threshold', 'amp_consistency_threshold', 'period_consistency_threshold', 'monotonicity_threshold']
+THR_RANGES = {'amp_fraction_threshold': (0.0, 0.25), 'amp_consistency_threshold': (0.25, 0.5),
+              'period_consistency_threshold': (0.25, 0.5), 'monotonicity_threshold': (0.5, 0.7)}
+MIN_N_POS = ['first', 'middle', 'last', 'absent']
 WHATS = ['array', 'df', 'summary', 'object']
 CENTRES = ['peak', 'trough']
 BASE_MODES = ['none', 'grid', 'trunc']
-EXTRA_MODES = ['tiny', 'cycle_end', 'from_zero', 'to_end']
+EXTRA_MODES = ['tiny', 'cycle_end', 'from_zero', 'to_end', 'cycle_start']
 OFFSET_FS = [50.0, 64.0, 100.0, 128.0, 200.0, 250.0, 500.0, 1000.0, 30.0]
 
 
-def _plot_case(rng, what, centre, mode, pair=None):
+def _thresholds(rng, pos=None, shorthand=False, subset=None):
+    """A threshold dictionary as a list of [key as written, value] in insertion order: pairwise different values, keys
+    shuffled, min_n_cycles first / in the middle / last / absent, optionally a subset of the parameters (at least two)
+    and, for the object interface, some keys written in the documented shorthand (without `_threshold`)."""
+    vals = {}
+    for k in PKEYS:
+        lo, hi = THR_RANGES[k]
+        while True:
+            v = round(rng.uniform(lo, hi), 3)
+            if all(abs(v - w) >= 0.004 for w in vals.values()):
+                break
+        vals[k] = v
+    keys = list(PKEYS)
+    rng.shuffle(keys)
+    if subset is None:
+        subset = rng.random() < 0.2
+    if subset:
+        keys = keys[:rng.randint(2, 3)]
+    pos = pos or rng.choice(MIN_N_POS)
+    items = [[k, vals[k]] for k in keys]
+    if pos != 'absent':
+        at = {'first': 0, 'last': len(items), 'middle': rng.randint(1, len(items) - 1)}[pos]
+        items.insert(at, ['min_n_cycles', rng.choice([2, 3])])
+    if shorthand:
+        idx = [i for i, it in enumerate(items) if it[0] != 'min_n_cycles']
+        for i in rng.sample(idx, rng.randint(1, len(idx))):
+            items[i][0] = items[i][0][:-len('_threshold')]
+    return items
+
+
+def _full_key(k):
+    return k if k == 'min_n_cycles' or k.endswith('_threshold') else k + '_threshold'
+
+
+def _thr_dict(items):
+    return {k: v for k, v in items}
+
+
+def _thr_full(items):
+    """The same settings with every key written in full (what the functions take)."""
+    return {_full_key(k): v for k, v in items}
+
+
+def _plot_case(rng, what, centre, mode, pair=None, pos=None):
     s = gen.signal(rng, kind=rng.choice(['sparse', 'bursty', 'sum', 'sine', 'asym']), max_len=420)
     ln = len(s['sig'])
     if pair is None:
@@ -48,7 +99,8 @@ def _plot_case(rng, what, centre, mode, pair=None):
     return {'kind': 'plot/' + mode, 'sig': gen.hexlist(s['sig']), 'fs': s['fs'], 'f_range': list(s['f_range']),
             'center': centre, 'mode': mode, 'a': rng.randint(1, ln // 2), 'w': rng.randint(3, ln // 2), 'what': what,
             'switch': [rng.random() < 0.8 for _ in range(4)], 'plot_sig': rng.random() < 0.5,
-            'only_result': bool(pair[0]), 'interp': bool(pair[1])}
+            'only_result': bool(pair[0]), 'interp': bool(pair[1]),
+            'thr': _thresholds(rng, pos, shorthand=(what == 'object' and rng.random() < 0.7))}
 
 
 def cases(rng, tier):
@@ -60,13 +112,20 @@ def cases(rng, tier):
             # every (plot_only_result, interp) pair at least once per (function, centring); the rest drawn at random
             todo = list(pairs)
             rng.shuffle(todo)
+            # ... and every position of min_n_cycles in the threshold dictionary (first / middle / last / absent)
+            poss = list(MIN_N_POS)
+            rng.shuffle(poss)
             for rep in range(reps):
                 for mode in BASE_MODES:
-                    out.append(_plot_case(rng, what, centre, mode, todo.pop() if todo else None))
+                    out.append(_plot_case(rng, what, centre, mode, todo.pop() if todo else None, poss.pop() if poss else None))
     for rep in range(1 if tier == 'quick' else 10):
         for mode in EXTRA_MODES:
             for what in WHATS:
                 out.append(_plot_case(rng, what, rng.choice(CENTRES), mode))
+    # the view starts exactly on the first sample of a cycle (F16): more of them through the burst summary, panels drawn
+    for rep in range(2 if tier == 'quick' else 12):
+        for what in ('summary', 'object'):
+            out.append(_plot_case(rng, what, CENTRES[rep % 2], 'cycle_start', (False, rep % 4 < 2)))
     if tier != 'quick':
         for _ in range(120):
             out.append(_plot_case(rng, rng.choice(WHATS), rng.choice(CENTRES), rng.choice(BASE_MODES + EXTRA_MODES)))
@@ -83,7 +142,7 @@ def cases(rng, tier):
             for pool in (below, above):
                 ks.update(rng.sample(pool, min(m, len(pool))))
             ks.update(rng.sample(range(1, nk), 2 * m))
-            out.append({'kind': 'offset', 'via': via, 'fs': fs, 'ks': sorted(ks)})
+            out.append({'kind': 'offset', 'via': via, 'fs': fs, 'ks': sorted(ks), 'thr': _thresholds(rng, subset=False)})
     return out
 
 
@@ -100,7 +159,18 @@ def _xlim(c, n, fs, rows):
             a = bad[c['a'] % len(bad)]
     if mode == 'from_zero':
         a = 0
+    first_of = None
+    if mode == 'cycle_start':
+        # the view starts exactly on the first sample of a cycle, preferably where fs * (k / fs) > k (F16), and shows
+        # that cycle entirely
+        starts = [r for r in rows if 1 <= r[0] and r[1] + 1 <= n - 1]
+        pick = [r for r in starts if (r[0] / fs) * fs > r[0]] or [r for r in starts if (r[0] / fs) * fs != r[0]] or starts
+        if pick:
+            first_of = pick[c['a'] % len(pick)]
+            a = first_of[0]
     b = min(n - 1, a + c['w'])
+    if first_of is not None:
+        b = min(n - 1, max(b, first_of[1] + 1))
     if mode == 'tiny':
         b = min(n - 1, a + 3)
     if mode == 'to_end':
@@ -109,11 +179,6 @@ def _xlim(c, n, fs, rows):
         ends = [r[1] for r in rows if a + 2 < r[1] < n - 1]
         if ends:
             b = ends[c['w'] % len(ends)]
-    # PENDING-DEFECT 1: a window starting exactly on the first sample of a cycle with fs * (a / fs) > a makes limit_df
-    # drop that cycle although it lies entirely inside the view; excluded until the implementation is repaired
-    lasts = set(r[0] for r in rows)
-    while a in lasts and (a / fs) * fs > a and a + 3 < b:
-        a += 1
     return (a / fs, b / fs), a, b - a      # samples with a / fs <= t < b / fs
 
 
@@ -140,17 +205,19 @@ def _same(a, b, tol):
 
 
 def _synth_table(k):
-    """Three cycles [k+1,k+3] [k+3,k+6] [k+6,k+9], the middle one labelled; peak-centred."""
+    """Three peak-centred cycles [k, k+3] [k+3, k+6] [k+6, k+10], the first two labelled: the first starts exactly on the
+    first sample of the view [k, k+11), the last ends exactly on its last sample."""
     import pandas as pd
-    return pd.DataFrame({'sample_peak': [k + 2, k + 5, k + 7], 'sample_last_trough': [k + 1, k + 3, k + 6],
-                         'sample_next_trough': [k + 3, k + 6, k + 9], 'sample_zerox_rise': [k + 1, k + 4, k + 6],
-                         'sample_zerox_decay': [k + 2, k + 5, k + 8], 'sample_last_zerox_decay': [k, k + 2, k + 5],
-                         'is_burst': [False, True, False], 'amp_fraction': [0.2, 0.5, 0.9],
+    return pd.DataFrame({'sample_peak': [k + 2, k + 5, k + 8], 'sample_last_trough': [k, k + 3, k + 6],
+                         'sample_next_trough': [k + 3, k + 6, k + 10], 'sample_zerox_rise': [k + 1, k + 4, k + 7],
+                         'sample_zerox_decay': [k + 2, k + 5, k + 9], 'sample_last_zerox_decay': [k - 1, k + 2, k + 5],
+                         'is_burst': [True, True, False], 'amp_fraction': [0.2, 0.5, 0.9],
                          'amp_consistency': [np.nan, 0.5, np.nan], 'period_consistency': [np.nan, 0.625, np.nan],
                          'monotonicity': [0.75, 0.875, 0.5]})
 
 
-_SYNTH_ROWS = [(1, 3, 2, 0.75), (3, 6, 5, 0.875), (6, 9, 7, 0.5)]      # (last, next, centre, monotonicity) relative to k
+_SYNTH_ROWS = [(0, 3, 2, 0.75), (3, 6, 5, 0.875), (6, 10, 8, 0.5)]      # (last, next, centre, monotonicity) relative to k
+_SYNTH_BURST = (0, 6)                                                     # labelled samples, relative to k
 _SYNTH_VIEW = 11
 
 
@@ -190,7 +257,7 @@ def _run_offset(c):
                     got.append([k, float(t0).hex(), [float(v) for v in ln.get_ydata()], [float(v).hex() for v in ln.get_xdata()]])
                     _clear(ax)
                 elif via == 'summary':
-                    fn(_synth_table(k), sig, fs, dict(THR), xlim=(t0, (k + _SYNTH_VIEW) / fs), plot_only_result=True)
+                    fn(_synth_table(k), sig, fs, _thr_dict(c['thr']), xlim=(t0, (k + _SYNTH_VIEW) / fs), plot_only_result=True)
                     f2 = plt.gcf()
                     l0 = f2.axes[0].lines
                     bx = l0[1].get_xdata()
@@ -237,9 +304,8 @@ def run_impl(c):
     from bycycle.plts import plot_cyclepoints_array, plot_cyclepoints_df, plot_burst_detect_summary
     sig = gen.unhexlist(c['sig'])
     fs = c['fs']
-    thr = dict(THR)
     try:
-        df = compute_features(sig, fs, tuple(c['f_range']), center_extrema=c['center'], threshold_kwargs=dict(thr))
+        df = compute_features(sig, fs, tuple(c['f_range']), center_extrema=c['center'], threshold_kwargs=_thr_full(c['thr']))
     except Exception as e:
         return {'skip': 'compute_features raised %s' % exc_kind(e)}
     sc = pipeline.sample_cols(c['center'])
@@ -284,11 +350,12 @@ def run_impl(c):
         else:
             if c['what'] == 'object':
                 from bycycle import Bycycle
-                bm = Bycycle(center_extrema=c['center'], thresholds=dict(thr))
+                bm = Bycycle(center_extrema=c['center'], thresholds=_thr_dict(c['thr']))      # keys as written (shorthand)
                 bm.fit(sig, fs, tuple(c['f_range']))
                 bm.plot(xlim=xlim, plot_only_results=c['only_result'], interp=c['interp'])
             else:
-                plot_burst_detect_summary(df, sig, fs, dict(thr), xlim=xlim, plot_only_result=c['only_result'], interp=c['interp'])
+                plot_burst_detect_summary(df, sig, fs, _thr_full(c['thr']), xlim=xlim, plot_only_result=c['only_result'],
+                                          interp=c['interp'])
             fig = plt.gcf()
             axes = fig.axes
             l0 = axes[0].lines
@@ -310,12 +377,12 @@ def run_impl(c):
                 out['markers'][nm] = _markers(ln, fs, z, 1e-12, trace)
             if not c['only_result']:
                 panels = []
-                for k, axp in zip(PKEYS, axes[1:]):
+                for axp in axes[1:]:          # in drawn order; which parameter a panel shows is decided by the oracle
                     ls = axp.lines
                     pts = [[_idx(x, fs), None if math.isnan(float(y)) else float(y), _x_ok(x, fs)]      # NaN travels as None (strict JSON)
                            for x, y in zip(ls[0].get_xdata(), ls[0].get_ydata())]
-                    tl = [float(v) for v in ls[1].get_ydata()]
-                    panels.append({'key': k, 'points': pts, 'thr_line': tl, 'drawstyle': str(ls[0].get_drawstyle())})
+                    tl = [float(v) for v in ls[1].get_ydata()] if len(ls) > 1 else []
+                    panels.append({'points': pts, 'thr_line': tl, 'drawstyle': str(ls[0].get_drawstyle())})
                 out['panels'] = panels
                 out['panel_values'] = {k: [float(v) if not math.isnan(float(v)) else None for v in df[k.replace('_threshold', '')].values]
                                        for k in PKEYS}
@@ -325,19 +392,6 @@ def run_impl(c):
     finally:
         plt.close('all')
     return out
-
-
-def _kept_idx(c, o):
-    """Indices of the rows limit_df keeps for this window (binary64 comparison of the side extrema with start*fs /
-    stop*fs, as C18)."""
-    if o['xlim'] is None:
-        return list(range(len(o['rows'])))
-    a, b = float.fromhex(o['xlim'][0]), float.fromhex(o['xlim'][1])
-    return [i for i, r in enumerate(o['rows']) if r[0] >= a * c['fs'] and r[1] <= b * c['fs']]
-
-
-def _kept_rows(c, o):
-    return [o['rows'][i] for i in _kept_idx(c, o)]
 
 
 def _val(v):
@@ -368,12 +422,13 @@ def _oracle_offset(c, o):
                 return 'window starting at sample %d (fs=%s): markers for samples %d,%d drawn at t=%s' % (k, fs, k + 1, k + 2, xs)
         elif c['via'] == 'summary':
             hl, mk, view, zs = g[2], g[3], g[4], g[5]
-            want = list(range(k + 3, k + 7))
+            want = list(range(k + _SYNTH_BURST[0], k + _SYNTH_BURST[1] + 1))
             if sorted(hl) != want:
-                return ('summary, window starting at sample %d (fs=%s): highlighted samples %s, the only labelled cycle is '
-                        '[%d, %d]' % (k, fs, hl, k + 3, k + 6))
+                return ('summary, window starting at sample %d (fs=%s): highlighted samples %s, the labelled cycles are '
+                        '[%d, %d] and [%d, %d], both entirely inside the view' % (k, fs, hl, k, k + 3, k + 3, k + 6))
             # markers: the plotted trace is increasing, so a drawn value identifies the sample it was read from
-            for nm, ys, pts in (('centre', mk[0], [k + 2, k + 5, k + 7]), ('side', mk[1], [k + 1, k + 3, k + 6, k + 9])):
+            for nm, ys, pts in (('centre', mk[0], [k + r[2] for r in _SYNTH_ROWS]),
+                                ('side', mk[1], sorted(set([k + r[0] for r in _SYNTH_ROWS] + [k + r[1] for r in _SYNTH_ROWS])))):
                 vals = {}
                 for p in pts:
                     j = p - view[0]
@@ -401,6 +456,82 @@ def _oracle_offset(c, o):
                 if not any(k + la <= p[0] <= k + nx and _same(p[1], v, 1e-12) for la, nx, ce, v in _SYNTH_ROWS):
                     return 'panel, window starting at sample %d (fs=%s): point %s shows no cycle of the table' % (k, fs, p[:2])
     return None
+
+
+def _panel_values_verdict(c, o, p, key, inside, s0, n):
+    """The panel p shows the per-cycle values of parameter `key` (None), or why not."""
+    col = o['panel_values'][key]
+    pts = p['points']
+    if not all(q[2] for q in pts):
+        return 'a point is not drawn at a sample time'
+    if c['interp']:
+        cent = {r[3]: i for i, r in enumerate(o['rows'])}
+        for x, y, _ in pts:
+            if x not in cent:
+                return 'point at sample %d which is not a cycle centre' % x
+            if not _same(_val(y), _val(col[cent[x]]), 1e-12):
+                return 'value %r at centre %d, table has %r' % (y, x, col[cent[x]])
+        for r in inside:
+            if not any(x == r[3] for x, _, _ in pts):
+                return 'no point for the cycle centred on sample %d, which lies entirely inside the view [%d,+%d)' % (r[3], s0, n)
+        return None
+    # steps: every drawn value is the value of a cycle covering that sample, and the value of every cycle entirely
+    # inside the view is drawn across its centre
+    for x, y, _ in pts:
+        if not any(r[0] <= x <= r[1] and _same(_val(y), _val(col[i]), 1e-12) for i, r in enumerate(o['rows'])):
+            return '(steps) value %r at sample %d is not the value of a cycle covering that sample' % (y, x)
+    if p['drawstyle'] == 'default':
+        for i, r in enumerate(o['rows']):
+            if s0 <= r[0] and r[1] <= s0 + n - 1 and not _steps_show(pts, r[3], _val(col[i])):
+                return '(steps) value %r of the cycle [%d, %d] is not drawn across its centre %d' % (col[i], r[0], r[1], r[3])
+    return None
+
+
+def _thr_line_ok(p, want):
+    return bool(p['thr_line']) and all(abs(v - want) < 1e-12 for v in p['thr_line'])
+
+
+def _matching(cands, n_right):
+    """A perfect matching panel -> parameter (cands[i] = admissible parameter indices of panel i), or None."""
+    def go(i, used):
+        if i == len(cands):
+            return []
+        for j in cands[i]:
+            if j not in used:
+                rest = go(i + 1, used | {j})
+                if rest is not None:
+                    return [j] + rest
+        return None
+    return go(0, frozenset()) if len(cands) == n_right else None
+
+
+def _judge_panels(c, o, inside, s0, n):
+    """One panel per given parameter, each showing that parameter's per-cycle values with the threshold line at the value
+    given for THAT parameter (by name).  Which panel shows which parameter is read off the drawn values, not off the
+    order of the panels or their labels."""
+    given = [(_full_key(k), v) for k, v in c['thr'] if k != 'min_n_cycles']
+    panels = o['panels']
+    if len(panels) != len(given):
+        return '%d parameter panels drawn for the %d parameters given (%s)' % (len(panels), len(given), [k for k, _ in given])
+    why = [[_panel_values_verdict(c, o, p, k, inside, s0, n) for k, _ in given] for p in panels]
+    by_values = [[j for j in range(len(given)) if why[i][j] is None] for i in range(len(panels))]
+    for i, cand in enumerate(by_values):
+        if not cand:
+            return 'panel %d shows the per-cycle values of none of the given parameters (e.g. %s: %s)' % (
+                i + 1, given[min(i, len(given) - 1)][0], why[i][min(i, len(given) - 1)])
+    full = [[j for j in by_values[i] if _thr_line_ok(panels[i], given[j][1])] for i in range(len(panels))]
+    if _matching(full, len(given)) is not None:
+        return None
+    m = _matching(by_values, len(given))
+    if m is None:
+        return 'the panels do not show each given parameter once (admissible parameters per panel: %s)' % (
+            [[given[j][0] for j in cand] for cand in by_values])
+    for i, j in enumerate(m):
+        if not _thr_line_ok(panels[i], given[j][1]):
+            return 'the panel showing %s draws its threshold line at %s, the %s given is %s (thresholds as given: %s)' % (
+                given[j][0].replace('_threshold', ''), panels[i]['thr_line'], given[j][0], given[j][1], c['thr'])
+    return 'threshold lines do not match the given thresholds by name (given: %s; drawn: %s)' % (
+        c['thr'], [p['thr_line'] for p in panels])
 
 
 def oracle(c, o):
@@ -469,36 +600,7 @@ def oracle(c, o):
         if smp not in high:
             return 'sample %d of a bursting cycle lying entirely inside the view is not highlighted' % smp
     if 'panels' in o:
-        for p in o['panels']:
-            col = o['panel_values'][p['key']]
-            thr = THR[p['key']]
-            if not p['thr_line'] or not all(abs(v - thr) < 1e-12 for v in p['thr_line']):
-                return 'threshold line of %s at %s, expected %s' % (p['key'], p['thr_line'], thr)
-            pts = p['points']
-            if not all(q[2] for q in pts):
-                return 'panel %s: a point is not drawn at a sample time' % p['key']
-            if c['interp']:
-                cent = {r[3]: i for i, r in enumerate(o['rows'])}
-                for x, y, _ in pts:
-                    if x not in cent:
-                        return 'panel %s: point at sample %d which is not a cycle centre' % (p['key'], x)
-                    if not _same(_val(y), _val(col[cent[x]]), 1e-12):
-                        return 'panel %s: value %r at centre %d, table has %r' % (p['key'], y, x, col[cent[x]])
-                for r in inside:
-                    if not any(x == r[3] for x, _, _ in pts):
-                        return 'panel %s: no point for the cycle centred on sample %d, which lies entirely inside the view [%d,+%d)' % (
-                            p['key'], r[3], s0, n)
-            else:
-                # steps: every drawn value is the value of a cycle covering that sample, and the value of every cycle
-                # entirely inside the view is drawn across its centre
-                for x, y, _ in pts:
-                    if not any(r[0] <= x <= r[1] and _same(_val(y), _val(col[i]), 1e-12) for i, r in enumerate(o['rows'])):
-                        return 'panel %s (steps): value %r at sample %d is not the value of a cycle covering that sample' % (p['key'], y, x)
-                if p['drawstyle'] == 'default':
-                    for i, r in enumerate(o['rows']):
-                        if s0 <= r[0] and r[1] <= s0 + n - 1 and not _steps_show(pts, r[3], _val(col[i])):
-                            return 'panel %s (steps): value %r of the cycle [%d, %d] is not drawn across its centre %d' % (
-                                p['key'], col[i], r[0], r[1], r[3])
+        return _judge_panels(c, o, inside, s0, n)
     return None
 
 
@@ -539,8 +641,8 @@ def coq_case(c, o):
                 # marker of sample k+1 is drawn with the value of sample k + (k+1 - off)
                 off = int(2 * k + 1 - g[2][0]) if g[2] else None
             elif c['via'] == 'summary':
-                # the labelled cycle starts at sample k+3 and is highlighted from view index k+3 - off
-                off = (k + 3) - (min(g[2]) - g[4][0]) if g[2] else None
+                # the first labelled cycle starts at sample k and is highlighted from view index k - off
+                off = (k + _SYNTH_BURST[0]) - (min(g[2]) - g[4][0]) if g[2] else None
             else:
                 # first drawn point belongs to sample p of the table and sits at view index p - off
                 p = k + (_SYNTH_ROWS[0][2] if g[2] else _SYNTH_ROWS[0][0])
@@ -560,18 +662,24 @@ def coq_case(c, o):
         got = [g[0] - s0 for g in o['series'][nm] if s0 < g[0] < s0 + n - 1]
         src = [p for p in src if p != s0]
         return '(%d%%Z, %d%%nat, %d%%Z, %s)' % (s0, n, s0, coqio.zlist(src)), coqio.zlist(got)
-    kept = _kept_idx(c, o)
-    rows = [o['rows'][i] for i in kept]
-    rws = coqio.lst(['((%s%%Z, %s%%Z, %s%%Z), %s)' % (coqio.Z(r[3]), coqio.Z(r[0]), coqio.Z(r[1]), coqio.B(r[2])) for r in rows])
-    cpts = [r[3] for r in rows if r[3] != s0]
-    spts = [p for p in sorted(set([r[0] for r in rows] + [r[1] for r in rows])) if p != s0]
-    cols, pans = [], []
+    # the whole table goes to the model, which selects the window-limited rows itself (Model/Window.v keep_row)
+    lim = 'None' if o['xlim'] is None else '(Some (%s, %s, %s))' % (
+        coqio.fl(c['fs']), coqio.fl(float.fromhex(o['xlim'][0])), coqio.fl(float.fromhex(o['xlim'][1])))
+    with_panels = 'panels' in o
+    vals = o.get('panel_values')
+    rws = coqio.lst(['((%s%%Z, %s%%Z, %s%%Z), %s, %s)' % (
+        coqio.Z(r[3]), coqio.Z(r[0]), coqio.Z(r[1]), coqio.B(r[2]),
+        coqio.lst([coqio.fl(_val(vals[k][i])) for k in PKEYS] if vals else []))
+        for i, r in enumerate(o['rows'])])
+    user = coqio.lst(['(("%s"%%string, %s), %s)' % (_full_key(k), coqio.B(_full_key(k) != k), coqio.fl(float(v))) for k, v in c['thr']])
+    inp = '(%d%%nat, %s%%Z, %s, %s, %s, %s, %s, %s, %s)' % (
+        n, coqio.Z(s0), lim, coqio.lst(['"%s"%%string' % k for k in PKEYS]), rws, coqio.B(c['interp']), coqio.B(with_panels),
+        coqio.B(c['what'] == 'object'), user)
+    pans = []
     for p in o.get('panels', []):
-        col = o['panel_values'][p['key']]
-        cols.append(coqio.lst([coqio.fl(_val(col[i])) for i in kept]))
-        pans.append(coqio.lst([_zf(q[0] - s0, _val(q[1])) for q in p['points']]))
-    inp = '(%d%%nat, %s%%Z, %s, %s, %s, %s, %s)' % (n, coqio.Z(s0), rws, coqio.zlist(cpts), coqio.zlist(spts),
-                                                    coqio.B(c['interp']), coqio.lst(cols))
+        tl = p['thr_line']
+        line = '(Some %s)' % coqio.fl(tl[0]) if tl and all(v == tl[0] for v in tl) else 'None'
+        pans.append('(%s, %s)' % (line, coqio.lst([_zf(q[0] - s0, _val(q[1])) for q in p['points']])))
     mk = [coqio.zlist([g[0] - s0 for g in o['markers'][nm] if s0 < g[0] < s0 + n - 1]) for nm in ('peaks', 'troughs')]
     outp = '(%s, (%s, %s), %s)' % (coqio.barr(o['mask_len'], o['mask']), mk[0], mk[1], coqio.lst(pans))
     return inp, outp
